@@ -105,3 +105,11 @@ Theorem C15_oracle_sound :
                 In (rkey r) (assoc (o_d o)) /\ above_cursor (o_d o) r = true.
 Proof. exact check_obs_sound. Qed.
 Print Assumptions C15_oracle_sound.
+
+(** ... and in an accepted observation every stored row of the topic's log (index 0 in the
+    harness) is a row of a log the topic resolves to. *)
+Theorem C15_oracle_assoc_complete :
+  forall (o : obs), check_obs o = true ->
+    forall r, In r (rows (o_d o)) -> r_log r = Oracle.C15.tlog -> In (rkey r) (assoc (o_d o)).
+Proof. exact check_obs_assoc. Qed.
+Print Assumptions C15_oracle_assoc_complete.
